@@ -197,7 +197,7 @@ def main():
         rep.fail("tie:build", "compiler / driver no longer builds (tie broken)", {"kind": "broken-obligation", "detail": str(e)[-2000:]}, no_input=True)
         write_evidence(PID, "other", {"explanation": "build failed", "obligations": 1, "discharged": 0}, violations=1)
         return rep.finish()
-    nb = 10 if tier == "quick" else 150
+    nb = 10 if tier == "quick" else 50
     bases = []
     for i in range(nb): bases.append(("random", coregen.Gen(SplitMix64(seed() * 7000 + i), FEATS).program()))
     for i in range(nb): bases.append(("narrow", narrow_grid(rng)))
